@@ -529,7 +529,7 @@ func c17KindClass(kinds []string) string {
 func init() {
 	fw.Register(&fw.Prop{
 		ID: "C17", Level: "exploration",
-		Rule: "base rule sets of 4-12 rules (ids, tags, messages incl. rules without msg, chains, some blocking) combined with 1-3 SecRuleRemoveById/ByTag/ByMsg, SecRuleUpdateTargetById/ByTag (positive targets; string and regex exclusions) and SecRuleUpdateActionById directives over single ids, several ids and ranges - or with one run-time ctl:ruleRemoveById/ByTag/ByMsg / ctl:ruleRemoveTargetById/ByTag/ByMsg on a steerable carrier rule at a random position and phase - are run next to the configuration the generator rewrote explicitly (rules deleted, targets/actions written in place; for ctl only for rules evaluated after the carrier); fired rules, match data, interruption and counters must agree. A follow-up transaction on the same WAF must behave like the base rules. Non-trivial: the two configuration texts differ and some rule fired; distinct by (configuration A, request).",
+		Rule:        "base rule sets of 4-12 rules (ids, tags, messages incl. rules without msg, chains, some blocking) combined with 1-3 SecRuleRemoveById/ByTag/ByMsg, SecRuleUpdateTargetById/ByTag (positive targets; string and regex exclusions) and SecRuleUpdateActionById directives over single ids, several ids and ranges - or with one run-time ctl:ruleRemoveById/ByTag/ByMsg / ctl:ruleRemoveTargetById/ByTag/ByMsg on a steerable carrier rule at a random position and phase - are run next to the configuration the generator rewrote explicitly (rules deleted, targets/actions written in place; for ctl only for rules evaluated after the carrier); fired rules, match data, interruption and counters must agree. A follow-up transaction on the same WAF must behave like the base rules. Non-trivial: the two configuration texts differ and some rule fired; distinct by (configuration A, request).",
 		Assumptions: []string{"both sides run through the real engine; the rewritten form only uses constructs covered by C01/C08/C09", "configurations whose directive form is rejected by NewWAF are counted, not judged"},
 		Required:    []string{"kind:removeById", "kind:removeByTag", "kind:removeByMsg", "kind:updTargetById", "kind:updTargetByTag", "kind:updActionById", "kind:ctl:removeById", "kind:ctl:updTargetById", "isolation_followups"},
 		Plan: func(tier fw.Tier, seed int64) []fw.Batch {
